@@ -102,7 +102,7 @@ _ALL = {
              'insert/delete of the head share one transaction block (L2), the pulled file is released after commit '
              '(F4), expired heads use the common liveness predicate (X1); Deque/Index delegate positionally right (S6).',
              'Delivery order/exactly-once over interleavings follows from the block discipline only under A2.'),
-    'C11': P(['E6', 'I3', ('I2', r'^(Deque|no-store)'), ('I1', r'^Deque\.'), ('L3', r'Deque\.'), ('R2', r'^Deque\.'), 'R3', ('P1', r'Deque'), ('S6', r'persistent\.Deque\.')],
+    'C11': P(['E6', 'I3', 'I4', ('I2', r'^(Deque|no-store)'), ('I1', r'^Deque\.'), ('L3', r'Deque\.'), ('R2', r'^Deque\.'), 'R3', ('P1', r'Deque'), ('S6', r'persistent\.Deque\.')],
              'structural necessary conditions: policy none, append+trim in one retrying block, Timeout containment, state tuple',
              'Does NOT decide equivalence with collections.deque. Decides: a Deque never evicts or expires (E6); '
              'append/appendleft push, measure and trim the opposite side inside one retrying transaction, as does the '
@@ -194,7 +194,8 @@ _EXTRA = {
     'C13': ' Also: named sub-containers have one handle per name, created only when the name is absent (S7); no '
            'class-level mutable containers and no stores on class objects (I2).',
     'C11': ' Also: append/appendleft keep the length at min(n + 1, maxlen) for every maxlen including 0, decided on a '
-           'finite (maxlen, length) abstraction of the enumerated paths (I3). Each method delegates to the right primitive with the right side/sentinel/retry constants and '
+           'finite (maxlen, length) abstraction of the enumerated paths (I3); the rich comparisons have sequence '
+           'semantics and each is built from its own operator (I4). Each method delegates to the right primitive with the right side/sentinel/retry constants and '
            'rotate re-inserts exactly what it popped (I1, L3).',
     'C12': ' Also: the delegation table and the sentinel-based equality hold (I1, L3); alternate constructors set the '
            'instance fields __init__ sets, nothing is stored on the class (I2).',
